@@ -11,13 +11,25 @@ Proof. revert l; induction k as [|k IH]; intros l; [reflexivity|]. destruct l; c
 Lemma nth_error_lastn {A} n (l : list A) j : nth_error (lastn n l) j = nth_error l ((length l - n) + j).
 Proof. unfold lastn. apply nth_error_skipn'. Qed.
 
+Lemma sorted_kle_nodup_strict {A} (key : A -> bytes) (l : list A) :
+  StronglySorted (kle key) l -> NoDup (map key l) -> ssorted (map key l).
+Proof.
+  induction 1 as [|x t Hs IH Hall]; intros Hnd; [constructor|].
+  cbn [map] in *. inversion Hnd as [|? ? Hnin Hnd']; subst.
+  constructor; [now apply IH|].
+  rewrite Forall_forall in *. intros z Hz. apply in_map_iff in Hz as (y & <- & Hy).
+  specialize (Hall _ Hy). unfold kle in Hall. unfold blt.
+  destruct (bytes_ltb (key x) (key y)) eqn:E; [reflexivity|].
+  exfalso. apply Hnin. rewrite (bytes_ltb_total _ _ E Hall). now apply in_map.
+Qed.
+
 (* ---------- set_last_sroot ---------- *)
 Lemma set_last_sroot_snoc r h0 e : set_last_sroot r (h0 ++ [e]) = h0 ++ [with_sroot e r].
 Proof.
   induction h0 as [|x h0 IH]; [reflexivity|].
-  cbn [app set_last_sroot]. destruct (h0 ++ [e]) eqn:E.
-  - apply app_eq_nil in E as [_ E]. discriminate.
-  - rewrite <- E, IH. reflexivity.
+  cbn [app].
+  assert (Hne : h0 ++ [e] <> []) by (intro E; apply app_eq_nil in E as [_ E]; discriminate).
+  rewrite <- IH. destruct (h0 ++ [e]); [congruence|reflexivity].
 Qed.
 
 Lemma set_last_sroot_length r h : length (set_last_sroot r h) = length h.
@@ -56,7 +68,7 @@ Qed.
 
 Lemma add_item_length H h it : (1 <= H)%nat -> (length h <= H)%nat ->
   length (add_item H h it) = Nat.min (S (length h)) H.
-Proof. intros. rewrite add_item_spec, lastn_length, app_length by assumption. cbn. lia. Qed.
+Proof. intros. rewrite add_item_spec, lastn_length, app_length by assumption. cbn [length]. lia. Qed.
 
 Section WithHashes.
   Variable B : bytes -> bytes.
@@ -123,17 +135,8 @@ Section WithHashes.
     ssorted (map rp_hash (e_reported (nentry b blk))).
   Proof.
     intros Hnd. cbn [nentry new_entry e_reported].
-    assert (Hp : Permutation (map rp_hash (hb_guar blk)) (map rp_hash (sort_by rp_hash (hb_guar blk))))
-      by (apply Permutation_map, sort_by_perm).
-    pose proof (Permutation_NoDup Hp Hnd) as Hnd'.
-    pose proof (sort_by_sorted rp_hash (hb_guar blk)) as Hs.
-    induction Hs as [|x t Hs IH Hall]; [constructor|].
-    cbn [map] in *. inversion Hnd' as [|? ? Hnin Hnd'']; subst.
-    constructor; [now apply IH|].
-    rewrite Forall_forall in *. intros z Hz. apply in_map_iff in Hz as (y & <- & Hy).
-    specialize (Hall _ Hy). unfold kle in Hall. unfold blt.
-    destruct (bytes_ltb (rp_hash x) (rp_hash y)) eqn:E; [reflexivity|].
-    exfalso. apply Hnin. rewrite (bytes_ltb_total _ _ E Hall). now apply in_map.
+    apply sorted_kle_nodup_strict; [apply sort_by_sorted|].
+    eapply Permutation_NoDup; [|exact Hnd]. apply Permutation_map, sort_by_perm.
   Qed.
 
   (* ---------- at most H entries ---------- *)
@@ -217,6 +220,10 @@ Section WithHashes.
     rewrite set_last_sroot_length, Nat.sub_diag. reflexivity.
   Qed.
 
+End WithHashes.
+
+Section Fuel.
+  Variable K : bytes -> bytes.
   (* ---------- the Merkle node function never runs out of the fuel supplied ---------- *)
   Lemma mnode_total fuel v : (length v < fuel)%nat -> mnode K fuel v <> None.
   Proof.
@@ -239,8 +246,7 @@ Section WithHashes.
   Lemma acc_root_opt_total outs : acc_root_opt K outs <> None.
   Proof.
     unfold acc_root_opt. destruct (map ser_accout outs) as [|x [|y t]] eqn:E; try discriminate.
-    - apply mnode_total. cbn. lia.
-    - apply mnode_total. lia.
+    apply mnode_total. lia.
   Qed.
 
   (* the MMR append keeps every peak hash-sized positions: it never shrinks and grows by at most one position *)
@@ -250,4 +256,4 @@ Section WithHashes.
     revert l; induction peaks as [|[p|] t IH]; intros l; cbn; try lia.
     specialize (IH (K (p ++ l))). lia.
   Qed.
-End WithHashes.
+End Fuel.
